@@ -796,9 +796,14 @@ class Phase(Angle):
         elif function in {np.floor_divide, np.remainder, np.divmod} and (
             basic_real and i_self == 0
         ):
-            # A Phase divisor is used as a regular Angle (would recurse otherwise).
-            if isinstance(inputs[1], Phase):
-                inputs = (inputs[0], inputs[1].cycle)
+            # A Phase divisor is used as a regular Angle for the first guess of the
+            # quotient (would recurse otherwise); its two parts are kept for the
+            # products and comparisons that settle the result.
+            divisor = inputs[1]
+            d_parts = (divisor,)
+            if isinstance(divisor, Phase):
+                d_parts = (divisor["int"], divisor["frac"])
+                inputs = (inputs[0], divisor.cycle)
             fd_out = None
             if out is not None:
                 if function is np.divmod:
@@ -816,7 +821,7 @@ class Phase(Angle):
                 phase_out = None
 
             fd = np.floor_divide(self.cycle, inputs[1], out=fd_out)
-            corr = Phase.from_angles(inputs[1], factor=fd, out=phase_out)
+            corr = Phase.from_angles(*d_parts, factor=fd, out=phase_out)
             remainder = np.subtract(self, corr, out=corr)
             fdx = np.floor_divide(remainder.cycle, inputs[1])
             # This can likely be optimized...
@@ -824,19 +829,19 @@ class Phase(Angle):
             # TODO: check this method is really correct.
             if np.count_nonzero(fdx):
                 fd += fdx
-                corr = Phase.from_angles(inputs[1], factor=fd, out=corr)
+                corr = Phase.from_angles(*d_parts, factor=fd, out=corr)
                 remainder = np.subtract(self, corr, out=corr)
 
             # remainder.cycle is a single double: if it rounded onto 0 or onto the
             # divisor, the quotient is still off by one.  Settle that with exact
             # (two-part) comparisons: 0 <= remainder < divisor (mirrored if negative).
-            d = inputs[1]
+            d = divisor
             pos = d > 0
             fdx = np.where(pos, remainder >= d, remainder <= d).astype(float)
             fdx -= np.where(pos, remainder < 0, remainder > 0)
             if np.count_nonzero(fdx):
                 fd += fdx
-                corr = Phase.from_angles(inputs[1], factor=fd, out=corr)
+                corr = Phase.from_angles(*d_parts, factor=fd, out=corr)
                 remainder = np.subtract(self, corr, out=corr)
 
             if target is not None and phase_out is None:
